@@ -478,7 +478,7 @@ pub struct Checked {
 }
 
 /// The full C19 oracle for one exchange.
-pub fn check(live: &ObservableInstanceState, raw_response: &[u8], unix: &[UnixRecord], probes: &mut Probes) -> Checked {
+pub fn check(live: &ObservableInstanceState, raw_response: &[u8], server_closed: bool, unix: &[UnixRecord], probes: &mut Probes) -> Checked {
     let mut findings = Vec::new();
     let mut out = Checked { findings: Vec::new(), evaluated: false, status: None, families: 0, series: 0, body_len: 0, json_len: 0 };
 
@@ -546,7 +546,13 @@ pub fn check(live: &ObservableInstanceState, raw_response: &[u8], unix: &[UnixRe
     let resp = match parse_http(raw_response) {
         HttpParse::Complete(r) => r,
         HttpParse::Incomplete(why) => {
-            add(&mut findings, "C19.http_framing", "incomplete_response".into(), format!("response incomplete ({why}); {} bytes received", raw_response.len()));
+            let key = if server_closed && why.starts_with("body shorter") { "content_length_mismatch" } else { "incomplete_response" };
+            add(
+                &mut findings,
+                "C19.http_framing",
+                key.into(),
+                format!("response incomplete ({why}); {} bytes received, connection closed by the exporter: {server_closed}", raw_response.len()),
+            );
             out.findings = findings;
             return out;
         }
